@@ -69,6 +69,21 @@ Theorem C16_update_queue_peer_stable : forall parent fs r,
 Proof. exact update_queue_stable. Qed.
 Print Assumptions C16_update_queue_peer_stable.
 
+(* ... and with dump files in the queue as well, as long as every peer-index
+   entry names a peer that has no id at that moment (one dump per peer, dumps
+   before that peer's updates): ANY such queue - including unreadable files and
+   files the parser stops in - keeps lookups unambiguous and ids stable.
+   _partial: without the freshness hypothesis C16_one_id_per_peer_refuted applies. *)
+Theorem C16_fresh_queue_peer_stable_partial : forall parent fs r,
+  queue_fresh parent r fs ->
+  Below r -> PeerUnique r ->
+  serial r + N.of_nat (length (flat_map (all_ops parent) fs)) < two32 ->
+  let r' := (queue_run parent r fs).1 in
+  Below r' /\ PeerUnique r' /\
+  forall p id, answers r (mrt_query parent p) id -> answers r' (mrt_query parent p) id.
+Proof. exact fresh_queue_stable. Qed.
+Print Assumptions C16_fresh_queue_peer_stable_partial.
+
 Theorem C16_unit_start_ok :
   Below unit_start.2 /\ PeerUnique unit_start.2 /\ serial unit_start.2 = 2 /\ unit_start.1 = 1.
 Proof. exact unit_start_ok. Qed.
@@ -166,6 +181,7 @@ Example C16_example :
   let upd := FGood 1 [RMsg p1 (BUpdate (URoutes 0 [5; 6] 8 0 [])); RState p2 6 1; RMsg p1 (BUpdate (URoutes 0 [] 0 0 [6]))] in
   dump_ok [RPit [p1; p2]; RRib 0 5 [(0, 3); (1, 4)]; RRib 1 7 [(1, 9)]] = true /\
   update_file upd = true /\
+  queue_fresh unit_start.1 unit_start.2 [dump; FBad; upd] /\
   import_updates [dump; FBad; upd] =
     [single 0 5 2 3; single 0 5 3 4; single 1 7 3 9;
      UBulk [MkPay (0, 5, 2) true 8; MkPay (0, 6, 2) true 8]; UWithdraw 3 None; UBulk [MkPay (0, 6, 2) false 0]] /\
